@@ -50,7 +50,7 @@ structure BDep where
   deriving DecidableEq, Repr, Inhabited
 
 inductive BMod where
-  | js (mt : MediaType) (deps : List BDep) (typesDep : Option Res)
+  | js (mt : MediaType) (deps : List BDep) (typesDep : Option Res) (sourceMap : Option Res)
   | wasm (deps : List BDep)
   | json
   | node
@@ -441,8 +441,8 @@ def visitModule (w : World) (o : Opts) (cls : Class) (c : Content) (st : St) : B
   | .js mt =>
     let r := visitJsDeps w o c.parsed st
     if o.kind.includeTypes then
-      (.module (.js mt r.1 c.parsed.typesDep), loadTypesDep w o c.parsed r.2)
-    else (.module (.js mt r.1 none), r.2)
+      (.module (.js mt r.1 c.parsed.typesDep c.parsed.sourceMapDep), loadTypesDep w o c.parsed r.2)
+    else (.module (.js mt r.1 none c.parsed.sourceMapDep), r.2)
 
 /-- "remove a potentially pending redirect that will never resolve" -/
 def dropPending (st : St) (req : Spec) : St :=
